@@ -42,7 +42,11 @@ func genC06(t *rapid.T) C06Case {
 	case "eye":
 		return C06Case{P: prog.Program{Nodes: []prog.Node{{Op: op, I: rapid.IntRange(1, 6).Draw(t, "n")}}}}
 	}
-	return C06Case{P: prog.GenSingle(t, op, cfg)}
+	p := prog.GenSingle(t, op, cfg)
+	for i := range p.Leaves {
+		p.Leaves[i].Tracked = rapid.IntRange(0, 3).Draw(t, "tracked") == 0 // elements do not depend on tracking
+	}
+	return C06Case{P: p}
 }
 
 func finiteOr(v, alt float64) float64 {
@@ -87,7 +91,7 @@ func checkC06(c C06Case) *Failure {
 	}
 	leaves, y, err := libForward(c.P)
 	if err != nil {
-		return failf("%s rejected valid arguments: %v", n.Op, err)
+		return failf("%s failed on valid arguments: %v", n.Op, err)
 	}
 	if f := compareTensor(n.Op, y, want, cmpBits, nil); f != nil {
 		return f
@@ -251,7 +255,7 @@ func checkC06Constructor(c C06Case) *Failure {
 		return nil
 	}
 	if err != nil {
-		return failf("%s rejected valid arguments: %v", n.Op, err)
+		return failf("%s failed on valid arguments: %v", n.Op, err)
 	}
 	if f := compareTensor(n.Op, x, want, cmpBits, nil); f != nil {
 		return f
